@@ -92,7 +92,7 @@ func Run(r *ev.Run, replay string) {
 			}
 		}
 	}
-	n := r.N(120, 4000)
+	n := r.N(120, 1500)
 	maxRoots := r.N(6, 12)
 	var wg sync.WaitGroup
 	for _, sd := range systems() {
